@@ -196,9 +196,17 @@ def do_call(ex, ev: Eval, node: ast.Call) -> V:
             return make_record(ex, ev, node, rt)
         if fname in ex.reg.classes:
             raise Unsupported("constructor call must be the right-hand side of a simple assignment")
+        r = inline_helper(ex, ev, node, fname)
+        if r is not None:
+            return r
         raise Unsupported(f"call to {fname} (no contract, not in the builtin table)")
     if isinstance(f, ast.Attribute):
         meth = f.attr
+        if isinstance(f.value, ast.Name) and f.value.id == "math" and "math" not in ev.st.vars:
+            r = builtin_call(ex, ev, node, meth)
+            if r is not None:
+                USED_BUILTINS.add(meth)
+                return r
         if isinstance(f.value, ast.Name):
             fv = ev.st.vars.get(f"{f.value.id}.{meth}")
             if fv is not None and isinstance(fv.t, TFun):
@@ -219,6 +227,85 @@ def do_call(ex, ev: Eval, node: ast.Call) -> V:
             raise Unsupported("pure callback tokens")
         return apply_callback(ex, ev, ft, node)
     raise Unsupported(f"call {ast.unparse(node)[:60]}")
+
+
+INLINE_DEPTH = [0]
+INLINED: set = set()
+
+
+def inline_helper(ex, ev, node, fname):
+    """A module-level helper WITHOUT a contract whose body is straight-line (docstring, simple assignments,
+    `if c: return e` chains, a final return) is executed in place on the argument values: the verified text is the
+    helper's real body, nothing is assumed about it.  (Keeps proofs alive across 'extract a small helper' edits.)"""
+    fn = None
+    for n in (ex.mod.body if ex.mod is not None else []):
+        if isinstance(n, ast.FunctionDef) and n.name == fname:
+            fn = n
+    if fn is None or INLINE_DEPTH[0] >= 3:
+        return None
+    A = fn.args
+    if A.vararg or A.kwarg:
+        return None
+    names = [x.arg for x in list(A.posonlyargs) + list(A.args)]
+    if len(node.args) > len(names) or any(isinstance(x, ast.Starred) for x in node.args):
+        return None
+    vals = {}
+    for nm, an in zip(names, node.args):
+        vals[nm] = ev.expr(an)
+    for k in node.keywords:
+        if k.arg is None:
+            return None
+        vals[k.arg] = ev.expr(k.value)
+    saved = ev.st.vars
+    dflt = dict(zip(names[len(names) - len(A.defaults):], A.defaults))
+    dflt.update({x.arg: d for x, d in zip(A.kwonlyargs, A.kw_defaults) if d is not None})
+    try:
+        ev.st.vars = {}
+        for nm in names + [x.arg for x in A.kwonlyargs]:
+            if nm not in vals:
+                if nm not in dflt:
+                    return None
+                vals[nm] = Eval(ex, ev.st, ev.spec, {}, None, None, ev.guard).expr(dflt[nm])
+        ev.st.vars = dict(vals)
+        INLINE_DEPTH[0] += 1
+        try:
+            r = _inline_block(ex, ev, list(fn.body), [])
+        finally:
+            INLINE_DEPTH[0] -= 1
+        if r is not None:
+            INLINED.add(fname)
+        return r
+    finally:
+        ev.st.vars = saved
+
+
+def _inline_block(ex, ev, stmts, guard):
+    sub = Eval(ex, ev.st, ev.spec, {}, None, None, list(ev.guard) + guard)
+    for i, s in enumerate(stmts):
+        if isinstance(s, ast.Expr) and isinstance(s.value, ast.Constant):
+            continue
+        if isinstance(s, ast.Assign) and len(s.targets) == 1 and isinstance(s.targets[0], ast.Name):
+            ev.st.vars[s.targets[0].id] = sub.expr(s.value)
+            continue
+        if isinstance(s, ast.Return) and s.value is not None:
+            return sub.expr(s.value)
+        if isinstance(s, ast.If):
+            c = sub.truth(sub.expr(s.test))
+            keep = dict(ev.st.vars)
+            a = _inline_block(ex, ev, list(s.body), guard + [c])
+            ev.st.vars = dict(keep)
+            b = _inline_block(ex, ev, list(s.orelse) + list(stmts[i + 1:]) if not s.orelse or True else [], guard + [z3.Not(c)])
+            ev.st.vars = keep
+            if a is None or b is None:
+                return None
+            if a.t != b.t:
+                if {a.t, b.t} == {INT, REAL}:
+                    a, b = coerce_to(a, REAL), coerce_to(b, REAL)
+                else:
+                    return None
+            return V(a.t, z3.If(c, a.z, b.z))
+        return None
+    return None
 
 
 def apply_callback(ex, ev, ft: TFun, node):
@@ -309,6 +396,19 @@ def builtin_call(ex, ev: Eval, node, fname):
     if fname == "abs":
         v = ev.expr(a[0])
         return V(v.t, z3.If(v.z >= 0, v.z, -v.z))
+    if fname == "isclose" and len(a) == 2:
+        # math.isclose over the reals: |x - y| <= max(rel_tol * max(|x|, |y|), abs_tol), constant tolerances only
+        x, y = coerce_to(ev.expr(a[0]), REAL).z, coerce_to(ev.expr(a[1]), REAL).z
+        tol = {"rel_tol": 1e-09, "abs_tol": 0.0}
+        for k in node.keywords:
+            if k.arg not in tol or not isinstance(k.value, ast.Constant):
+                raise Unsupported("isclose with a non-constant tolerance")
+            tol[k.arg] = float(k.value.value)
+        ab = lambda t: z3.If(t >= 0, t, -t)  # noqa: E731
+        mx = lambda p, q: z3.If(p >= q, p, q)  # noqa: E731
+        from fractions import Fraction
+        rt, at = (z3.RealVal(str(Fraction(tol[k]).limit_denominator(10**18))) for k in ("rel_tol", "abs_tol"))
+        return V(BOOL, z3.Or(x == y, ab(x - y) <= mx(rt * mx(ab(x), ab(y)), at)))
     if fname == "enumerate" and len(a) == 1:
         xs = ev.expr(a[0])
         if isinstance(xs.t, TList):
